@@ -8,8 +8,9 @@
 -/
 import NcVerif.Spec.Ops
 import NcVerif.Proofs.XmlText
+import NcVerif.Proofs.XmlDoc
 namespace NcVerif.C07
-open NcVerif NcVerif.Gen NcVerif.OpsSpec NcVerif.XmlText
+open NcVerif NcVerif.Gen NcVerif.OpsSpec NcVerif.XmlText NcVerif.XmlDoc
 
 /-- Every call that sends something sends exactly one `<rpc>` in the base namespace, with a message-id
     and exactly one operation element, the one the protocol (or the vendor's schema) defines. -/
@@ -59,7 +60,46 @@ theorem text_then_markup (s _rest : Str) (fuel : Nat) (h : fuel ≥ (escapeText 
     readText fuel (escapeText s) = some s := by
   exact XmlTextP.readText_escapeText s fuel h
 
+/-! ## No injection at TREE level (unbounded: every well-formed element tree)
+
+`XmlDoc.serialize` is how the XML library writes an element tree (compared byte for byte with
+`lxml.etree.tostring` / `to_xml` on every run), `XmlDoc.parseDoc` how an XML 1.0 reader reads such text
+(compared with expat).  Whatever strings the caller put into text and attribute-value positions, and
+however deep the tree, reading the serialisation yields exactly that tree: no caller string can add,
+remove or re-parent an element. -/
+
+/-- Document round trip for every well-formed tree (names are XML names, attribute names distinct,
+    text nodes non-empty and not adjacent — what the tree API can build). -/
+theorem doc_roundtrip (n : Str) (attrs : List (Str × Str)) (cs : List XNode)
+    (hw : wf (.elem n attrs cs) = true) :
+    parseDoc (serialize (.elem n attrs cs)) = some (.elem n attrs cs) :=
+  XmlDocP.parseDoc_serialize n attrs cs hw
+
+/-- A caller string as the only text of an operation parameter, any markup in it notwithstanding,
+    comes back as that one text node under that one element. -/
+theorem caller_text_is_one_node (op param : Str) (x : Str) (hop : validName op = true) (hparam : validName param = true)
+    (hx : x ≠ []) :
+    parseDoc (serialize (.elem op [] [.elem param [] [.text x]])) = some (.elem op [] [.elem param [] [.text x]]) := by
+  apply XmlDocP.parseDoc_serialize
+  have hx' : x.isEmpty = false := by cases x with | nil => exact absurd rfl hx | cons _ _ => rfl
+  simp [wf, wfList, hop, hparam, hx']
+
+/-- The same for an attribute value (e.g. the `select` attribute of an XPath filter). -/
+theorem caller_attr_is_one_value (op param a : Str) (x : Str) (hop : validName op = true) (hparam : validName param = true)
+    (ha : validName a = true) :
+    parseDoc (serialize (.elem op [] [.elem param [(a, x)] []])) = some (.elem op [] [.elem param [(a, x)] []]) := by
+  apply XmlDocP.parseDoc_serialize
+  simp [wf, wfList, hop, hparam, ha]
+
 /-! Non-vacuity -/
+example : serialize (.elem "g".toList [] [.elem "f".toList [("s".toList, "a\"<".toList)] [.text "</f><k/>".toList]])
+    = "<g><f s=\"a&quot;&lt;\">&lt;/f&gt;&lt;k/&gt;</f></g>".toList := by decide +kernel
+example : (parseDoc "<g><f s=\"a&quot;&lt;\">&lt;/f&gt;&lt;k/&gt;</f></g>".toList).map serialize
+    = some "<g><f s=\"a&quot;&lt;\">&lt;/f&gt;&lt;k/&gt;</f></g>".toList := by decide +kernel
+/-- Un-escaped, the same caller text WOULD be structure: the reader is not trivially permissive. -/
+example : (parseDoc "<g><f></f><k/></g>".toList).map serialize = some "<g><f/><k/></g>".toList := by decide +kernel
+example : (parseDoc "<g><f>".toList).map serialize = none := by decide +kernel
+example : wf (.elem "a".toList [("k".toList, "v".toList)] [.text "t".toList, .elem "b".toList [] [], .text "u".toList]) = true := by decide +kernel
 example : escapeText "a<b>&\r\n".toList = "a&lt;b&gt;&amp;&#13;\n".toList := by decide
 example : parseText "a&lt;b&gt;&amp;&#13;\n".toList = some "a<b>&\r\n".toList := by decide
 example : escapeAttr "x\"y\tz".toList = "x&quot;y&#9;z".toList := by decide
